@@ -148,6 +148,11 @@ def custom_templates(rng, mn, structure):
         streets=[_st(0, [0] * 3, 0, 0, P, mn, cap),
                  _st(0, [], 2, 1, P, mn, cap),
                  _st(1, [], 1, 1, P, 2 * mn, cap)], maxn=6, stud=False)
+    t['holeboard'] = dict(  # later streets that burn, deal a hole card AND board cards
+        deck='STANDARD', hand_types=['StandardHighHand'],
+        streets=[_st(0, [0, 0], 0, 0, P, mn, cap),
+                 _st(1, [0], 2, 0, P, mn, cap),
+                 _st(1, [1], 1, 0, P, 2 * mn, cap)], maxn=7, stud=False)
     t['greek'] = dict(
         deck='STANDARD', hand_types=['GreekHoldemHand'],
         streets=[_st(0, [0, 0], 0, 0, P, mn, cap),
